@@ -26,7 +26,7 @@ Space (one value per dimension; index 0 = default):
            values, latin-1 value)
   body     none | b'' | JSON | 3 bytes | urlencoded form | truncated JSON
   chunk    one http.request event | one per byte | trailing empty event   (simulate_request: asgi_chunk_size 4096 | 1 | 4096)
-  net      (scheme, host, port, root_path, remote_addr, http_version) x 8 (HTTP/1.0 = no Host header)
+  net      (scheme, host, port, root_path, remote_addr, http_version) x 10 (HTTP/1.0 = no Host header)
   opts     the 8 combinations of strip_url_path_trailing_slash, keep_blank_qs_values, auto_parse_qs_csv
 Bound: t-wise exhaustive -- every combination of values of any t dimensions, all other
 dimensions at their default; quick t=3, thorough t=4; plus the full product
@@ -92,12 +92,16 @@ NETS = [('http', 'falconframework.org', 80, '', '127.0.0.1', '1.1'),
         ('http', '[::1]', 8080, '', '::1', '1.1'),
         ('http', 'old.ex.org', 8000, '/app', '10.0.0.2', '1.0'),
         ('https', 'old.ex.org', 443, '', '10.0.0.3', '1.0'),
-        ('http', 'old.ex.org', 80, '', '10.0.0.3', '1.0')]
+        ('http', 'old.ex.org', 80, '', '10.0.0.3', '1.0'),
+        # no Host header and the OTHER scheme's default port: it is not this scheme's default, so it shows in netloc
+        ('http', 'old.ex.org', 443, '', '10.0.0.4', '1.0'),
+        ('https', 'old.ex.org', 80, '/app', '10.0.0.4', '1.0')]
 OPTS = [(s, k, c) for s in (False, True) for k in (True, False) for c in (False, True)]   # index 0 = falcon defaults
 OPS = ['digest', 'media', 'text', 'data201', 'media-resp', 'stream-len', 'stream-nolen', 'status204', 'status204-custom',
        'err404', 'err400-headers', 'err-invalid-header', 'err422', 'err405', 'redir301', 'redir302', 'redir303',
        'redir307', 'redir308', 'httpstatus', 'cookies', 'multi-header', 'boom', 'resp-attrs', 'partial', 'noroute',
-       'empty-data-media', 'empty-text-data', 'empty-media-stream', 'stream-file']
+       'empty-data-media', 'empty-text-data', 'empty-media-stream', 'stream-file',
+       'mw-dep-complete', 'mw-indep-complete', 'mw-dep-refuse']
 
 
 def names(seed):
@@ -335,6 +339,8 @@ def _logic(op, nm, is_async, req, resp, kw):
         resp.text = 'm'
     elif op == 'boom':
         raise RuntimeError('boom')
+    elif op.startswith('mw-'):
+        resp.text = 'responder ran'
     elif op == 'resp-attrs':
         import datetime
         resp.text = 'x'
@@ -395,11 +401,51 @@ class AsyncRes:
     on_get = on_post = on_put = on_head = on_delete = run
 
 
+def _mw_stack(op, is_async):
+    """Three components; the middle one short-circuits (resp.complete) or refuses the request in process_request; the outer
+    and the inner one stamp the response in process_response.  Same stack, sync and async spelling."""
+    def stamp(name):
+        if is_async:
+            class S:
+                async def process_request(self, req, resp):
+                    resp.append_header('X-Seen', name)
+
+                async def process_response(self, req, resp, resource, ok):
+                    resp.append_header('X-Stamp', '%s:%s' % (name, ok))
+        else:
+            class S:
+                def process_request(self, req, resp):
+                    resp.append_header('X-Seen', name)
+
+                def process_response(self, req, resp, resource, ok):
+                    resp.append_header('X-Stamp', '%s:%s' % (name, ok))
+        return S()
+
+    def gate_body(req, resp):
+        if op.endswith('complete'):
+            resp.text = 'short-circuited'
+            resp.complete = True
+        else:
+            raise falcon.HTTPForbidden(title='refused')
+    if is_async:
+        class G:
+            async def process_request(self, req, resp):
+                gate_body(req, resp)
+    else:
+        class G:
+            def process_request(self, req, resp):
+                gate_body(req, resp)
+    return [stamp('outer'), G(), stamp('inner')]
+
+
 def build_apps(op, opts, nm):
     """The same logic mounted on a WSGI and on an ASGI app."""
     out = {}
     for kind, cls in (('wsgi', falcon.App), ('asgi', falcon.asgi.App)):
-        app = cls()
+        if op.startswith('mw-'):
+            app = cls(middleware=_mw_stack(op, kind == 'asgi'), independent_middleware=op.startswith('mw-indep'))
+        else:
+            app = cls()
         ro = app.req_options
         ro.strip_url_path_trailing_slash, ro.keep_blank_qs_values, ro.auto_parse_qs_csv = opts
         if op == 'partial':
